@@ -598,3 +598,102 @@ def run_mp(case):
     return {"wiring": wiring, "alive": alive, "nonzero": [[i, array[i]] for i in range(2 ** 16) if array[i] != 0] if not alive else [],
             "locks_nonzero": sorted(str(k[1]) for k, v in getattr(cc, "_locks", {}).items() if v != 0) if not alive else [],
             "getter_ok": stats["ok"], "rmv_calls": stats["removed_calls"], "bad": stats["bad"]}
+
+
+# ------------------------------------------------------------------ many simultaneous read locks on one slot
+
+class Refused(Exception):
+    """a read lock that must be admitted was refused (the retry loop went to sleep)"""
+
+
+def run_depth(case):
+    """N simultaneous read locks on ONE slot of the lock table that coba/multiprocessing.py itself allocates
+    (same construction path: CobaMultiprocessor.filter with its process pool replaced by a recorder), either by one
+    caller nesting N re-entrant reads of the same key or by N real threads meeting at a barrier inside their with-blocks"""
+    import time as realtime
+    import ctypes
+    import multiprocessing as mp
+    from contextlib import ExitStack
+    import coba.context.cachers as M
+    n = int(case["n"])
+    key = case.get("key", "openml_000150_arff")
+    inner = M.MemoryCacher()
+    cc, wiring = wired_cacher(inner)
+    if cc is None:
+        ctx = mp.get_context("spawn")
+        cc = M.ConcurrentCacher(inner, ctx.RawArray(ctypes.c_short, [0] * 2 ** 16), ctx.Lock())
+    index = kidx(key)
+    value = full_value(0, 1, 2)
+    out = {"wiring": wiring, "n": n, "variant": case["variant"], "typecode": getattr(cc._array, "_type_", type(cc._array)).__name__,
+           "admitted": 0, "deepest": None, "bad_values": 0, "refused_at": None, "still_waiting": 0, "error": None}
+    sleeps = {"n": 0}
+
+    class Probe:
+        def __init__(self, single):
+            self.single = single
+
+        def sleep(self, secs=0):
+            sleeps["n"] += 1
+            if self.single:
+                raise Refused()            # a single caller that is told to wait would wait forever
+            realtime.sleep(0.001)
+
+        def __getattr__(self, name):
+            return getattr(realtime, name)
+
+    undo = patch_time(M, Probe(case["variant"] == "nest"))
+    try:
+        if case["variant"] == "nest":
+            try:
+                with ExitStack() as stack:
+                    for i in range(n):
+                        try:
+                            v = stack.enter_context(cc.get_set(key, lambda: list(value)))
+                        except Refused:
+                            out["refused_at"] = i + 1
+                            break
+                        out["admitted"] += 1
+                        if v != value:
+                            out["bad_values"] += 1
+                    out["deepest"] = int(cc._array[index])
+            except Exception as e:
+                out["error"] = type(e).__name__
+        else:
+            with cc.get_set(key, lambda: list(value)):
+                pass
+            bar = threading.Barrier(n)
+            mu = threading.Lock()
+
+            def reader():
+                try:
+                    with cc.get_set(key, lambda: ["should", "not", "run"]) as v:
+                        with mu:
+                            out["admitted"] += 1
+                            if v != value:
+                                out["bad_values"] += 1
+                        try:
+                            if bar.wait(timeout=15) == 0:
+                                out["deepest"] = int(cc._array[index])
+                            bar.wait(timeout=15)          # nobody leaves before the slot has been read
+                        except threading.BrokenBarrierError:
+                            pass
+                except Exception as e:
+                    with mu:
+                        out["error"] = type(e).__name__
+            ths = [threading.Thread(target=reader, daemon=True) for _ in range(n)]
+            for t in ths:
+                t.start()
+            deadline = realtime.time() + 40
+            for t in ths:
+                t.join(timeout=max(0.01, deadline - realtime.time()))
+            out["still_waiting"] = sum(t.is_alive() for t in ths)
+            if out["still_waiting"]:
+                bar.abort()
+    finally:
+        for name, val in undo:
+            setattr(M, name, val)
+    out["sleeps"] = sleeps["n"]
+    if not out["still_waiting"]:
+        out["slot_after"] = int(cc._array[index])
+        out["locks_nonzero"] = sorted(str(k[1]) for k, v in getattr(cc, "_locks", {}).items() if v != 0)
+    return out
